@@ -167,8 +167,8 @@ func isNaN(v Val) bool {
 
 // randVal draws a value of type t: edge values, small values (collisions) and
 // uniformly random bit patterns. NaN is never produced; negZero says whether
-// -0.0 may be (it is Go-equal to +0.0 but hashes differently, see the
-// float-negzero-key finding).
+// -0.0 may be (it is Go-equal to +0.0 and must hash like it: frame hashes the
+// bits of x+0 since the fix of the former float-negzero-key finding).
 func randVal(r *vf.Rand, t string, negZero bool) Val {
 	for {
 		v := randVal1(r, t)
@@ -208,7 +208,9 @@ func randVal1(r *vf.Rand, t string) Val {
 	case "bool":
 		return Val{T: t, U: uint64(r.Intn(2))}
 	case "float32":
-		switch r.Intn(5) {
+		switch r.Intn(6) {
+		case 5: // the two zeros: equal keys with different bit patterns
+			return Val{T: t, U: uint64(r.Intn(2)) << 31}
 		case 0:
 			return Val{T: t, U: uint64(math.Float32bits(float32(r.Range(-3, 3))))}
 		case 1:
@@ -216,7 +218,9 @@ func randVal1(r *vf.Rand, t string) Val {
 		}
 		return Val{T: t, U: r.Uint64() & 0xFFFFFFFF}
 	case "float64":
-		switch r.Intn(5) {
+		switch r.Intn(6) {
+		case 5:
+			return Val{T: t, U: uint64(r.Intn(2)) << 63}
 		case 0:
 			return Val{T: t, U: math.Float64bits(float64(r.Range(-3, 3)))}
 		case 1:
@@ -670,6 +674,18 @@ func runE2E(d *Desc) (o Obs) {
 	o.Outs = append([]Out(nil), rec[slot]...)
 	clearRec()
 	recMu.Unlock()
+	// An aggregating operator emits one of the Go-equal keys it merged (+0.0 or
+	// -0.0, whichever row came first: goroutine order); the representative is not
+	// fixed by anything, so it is canonicalised to +0.0.
+	if d.Op == "reduce" || d.Op == "cogroup" || d.Op == "fold" {
+		for i := range o.Outs {
+			for c, v := range o.Outs[i].Key {
+				if (v.T == "float32" && v.U == 1<<31) || (v.T == "float64" && v.U == 1<<63) {
+					o.Outs[i].Key[c].U = 0
+				}
+			}
+		}
+	}
 	sort.SliceStable(o.Outs, func(i, j int) bool {
 		if o.Outs[i].Shard != o.Outs[j].Shard {
 			return o.Outs[i].Shard < o.Outs[j].Shard
@@ -842,7 +858,7 @@ func genE2E(r *vf.Rand, id int, op, ex string, oob bool) Desc {
 	pool := make([][]Val, r.Range(2, 14))
 	for i := range pool {
 		for _, t := range d.Types {
-			pool[i] = append(pool[i], randVal(r, t, false))
+			pool[i] = append(pool[i], randVal(r, t, true))
 		}
 	}
 	n := nPart(&d)
@@ -888,7 +904,7 @@ func genPair(r *vf.Rand, id int, pair [2]string, which int, ex string) Desc {
 	pool := make([][]Val, r.Range(2, 6))
 	for i := range pool {
 		for _, t := range d.Types {
-			pool[i] = append(pool[i], randVal(r, t, false))
+			pool[i] = append(pool[i], randVal(r, t, true))
 		}
 	}
 	nrows := r.Range(12, 40)
@@ -911,7 +927,6 @@ func genPair(r *vf.Rand, id int, pair [2]string, which int, ex string) Desc {
 func aimed(id *int, ex string) []Desc {
 	s := func(x string) Val { return Val{T: "string", S: hex.EncodeToString([]byte(x))} }
 	i := func(x int) Val { return Val{T: "int", U: uint64(int64(x))} }
-	f := func(x float64) Val { return Val{T: "float64", U: math.Float64bits(x)} }
 	var ds []Desc
 	next := func() int { *id++; return *id }
 	// Fold over a slice whose prefix is 2: shuffled by (col0, col1), folded by col0
@@ -921,14 +936,30 @@ func aimed(id *int, ex string) []Desc {
 		fold.Rows = append(fold.Rows, Row{P: k % 3, Key: []Val{s("a"), i(k + 1)}})
 	}
 	ds = append(ds, fold)
-	// +0.0 and -0.0 are equal keys with different hashes
-	nz := math.Copysign(0, -1)
-	red := Desc{Kind: "e2e", ID: next(), Op: "reduce", Exec: ex, Types: []string{"float64"}, Prefix: 1,
-		NIn: []int{4}, Chunk: 128, Tag: "float-negzero-key"}
-	for k, x := range []float64{0, nz, 0, nz, 1, 1, 2, 2} {
-		red.Rows = append(red.Rows, Row{P: k % 4, Key: []Val{f(x)}})
+	// +0.0 and -0.0 are equal keys: they must meet in one shard and be aggregated
+	// together (ordinary cases since the float hash normalises -0.0; a split would
+	// be an unlisted violation)
+	for _, t := range []string{"float64", "float32"} {
+		f := func(x float64) Val {
+			if t == "float32" {
+				return Val{T: t, U: uint64(math.Float32bits(float32(x)))}
+			}
+			return Val{T: t, U: math.Float64bits(x)}
+		}
+		nz := math.Copysign(0, -1)
+		keys := []float64{0, nz, 0, nz, 1, 1, 2, 2, nz, 0}
+		for _, n := range []int{4, 7} {
+			red := Desc{Kind: "e2e", ID: next(), Op: "reduce", Exec: ex, Types: []string{t}, Prefix: 1,
+				NIn: []int{n}, Chunk: 128}
+			cog := Desc{Kind: "e2e", ID: next(), Op: "cogroup", Exec: ex, Types: []string{t}, Prefix: 1,
+				NIn: []int{n, 3}, Chunk: 16}
+			for k, x := range keys {
+				red.Rows = append(red.Rows, Row{P: k % n, Key: []Val{f(x)}})
+				cog.Rows = append(cog.Rows, Row{In: k % 2, P: k % 3, Key: []Val{f(x)}})
+			}
+			ds = append(ds, red, cog)
+		}
 	}
-	ds = append(ds, red)
 	return ds
 }
 
